@@ -59,6 +59,8 @@ def gen_tree(rng):
         m1 = os.path.join(d, "helper_mod.py") if d else "helper_mod.py"
         m2 = os.path.join(d, "helper_deep.py") if d else "helper_deep.py"
         extra = [f"helper_x{j}" for j in range(rng.randint(0, 4))]
+        # local modules may carry the names of standard-library modules: relative imports still mean the local file
+        extra += rng.sample(["types", "random", "platform", "signal", "string", "json"], rng.randint(0, 2))
         bad = rng.random() < 0.5
         names = ["helper_mod"] + extra + (["helper_badbytes"] if bad else [])
         rng.shuffle(names)
